@@ -108,3 +108,87 @@ func RefMerge(r *sim.R) {
 		r.FailD("share-nothing", "Merge", map[string]string{"embed": "over-reference"}, "after a Merge over references destination and source share mutable state: %v", sh)
 	}
 }
+
+// RefPolicy is C16's case for sources whose value under a named path is a reference: with VarExp
+// a setting "${defaults}" of the source evaluates to a list (or dictionary) and is merged as one;
+// the per-field policy named for its path applies to it like to a literal value.
+func RefPolicy(r *sim.R) {
+	t := r.T
+	opts := []ucfg.Option{ucfg.PathSep("."), ucfg.VarExp}
+	r.Order = t.Weighted([]int{3, 2, 2}, "order-policy")
+	n := 1 + t.Choose(3, "old-len")
+	m := 1 + t.Choose(3, "new-len")
+	var old, nw []interface{}
+	for i := 0; i < n; i++ {
+		old = append(old, fmt.Sprintf("o%d", i))
+	}
+	for i := 0; i < m; i++ {
+		nw = append(nw, fmt.Sprintf("n%d", i))
+	}
+	nested := t.Bool("nested-path")
+	path := "p"
+	dstIn := map[string]interface{}{"p": old, "keep": []interface{}{"k0", "k1"}}
+	srcIn := map[string]interface{}{"defs": nw, "p": "${defs}", "keep": []interface{}{"x"}}
+	if nested {
+		path = "s.p"
+		dstIn = map[string]interface{}{"s": map[string]interface{}{"p": old}, "keep": []interface{}{"k0", "k1"}}
+		srcIn = map[string]interface{}{"defs": nw, "s": map[string]interface{}{"p": "${defs}"}, "keep": []interface{}{"x"}}
+	}
+	pol := t.Choose(4, "field-policy")
+	mopts := append([]ucfg.Option{}, opts...)
+	var want []interface{}
+	switch pol {
+	case 0:
+		mopts = append(mopts, ucfg.FieldReplaceValues(path))
+		want = nw
+	case 1:
+		mopts = append(mopts, ucfg.FieldAppendValues(path))
+		want = append(append([]interface{}{}, old...), nw...)
+	case 2:
+		mopts = append(mopts, ucfg.FieldPrependValues(path))
+		want = append(append([]interface{}{}, nw...), old...)
+	default:
+		// no option: index-wise, the longer tail survives
+		want = append([]interface{}{}, nw...)
+		if len(old) > len(nw) {
+			want = append(want, old[len(nw):]...)
+		}
+	}
+	var dst, src *ucfg.Config
+	var err error
+	r.MustComplete("NewFrom", func() { dst, err = ucfg.NewFrom(dstIn, opts...) })
+	if err != nil {
+		return
+	}
+	r.MustComplete("NewFrom", func() { src, err = ucfg.NewFrom(srcIn, opts...) })
+	if err != nil {
+		return
+	}
+	r.Tracef("dst := NewFrom(%v); dst.Merge(NewFrom(%v), field policy %d for %q)", dstIn, srcIn, pol, path)
+	r.MustComplete("Merge", func() { err = dst.Merge(src, mopts...) })
+	r.StateOps++
+	r.Probe("merge: per-field policy on a path whose source value is a reference")
+	if err != nil {
+		r.FailD("op-result", "Merge", nil, "Merge of a source holding a reference to a list failed: %v", err)
+		return
+	}
+	var got map[string]interface{}
+	r.MustComplete("Unpack", func() { err = dst.Unpack(&got, opts...) })
+	if err != nil {
+		r.FailD("state", "Merge", nil, "Unpack after the merge failed: %v", err)
+		return
+	}
+	var gp interface{} = got["p"]
+	if nested {
+		if s, ok := got["s"].(map[string]interface{}); ok {
+			gp = s["p"]
+		}
+	}
+	if g, w := model.CanonValue(gp), model.CanonValue(want); g != w {
+		r.FailD("state", "Merge", map[string]string{"got": g, "want": w}, "after Merge with the policy named for %q the list there is %s; merging the referenced list as if that policy were the global one gives %s", path, g, w)
+	}
+	// outside the named subtree: the global (default) policy
+	if g, w := model.CanonValue(got["keep"]), model.CanonValue([]interface{}{"x", "k1"}); g != w {
+		r.FailD("state", "Merge", map[string]string{"got": g, "want": w}, "the per-field policy for %q reached the list \"keep\": %s, expected %s", path, g, w)
+	}
+}
